@@ -1,4 +1,7 @@
-import Tahoe.Base.LemmasMerkleSound
+import Tahoe.Base.LemmasMerkleComplete
+import Tahoe.Base.LemmasMerkleOrder
+import Tahoe.Base.LemmasMerkleClosed
+import Tahoe.Base.LemmasMerkleBuild
 /-! C35 — Merkle hash trees accept only genuine leaves (hashtree.py `IncompleteHashTree.set_hashes`).
 
 Vocabulary (Tahoe/Base/Merkle.lean): `Genuine ops T` — `T` is a fully populated Merkle tree; `Agree t T` — the
@@ -18,34 +21,15 @@ theorem rollback (ops : HashOps H) (cfg : Cfg) (hstrict : StrictPresence ops cfg
     (o : Outcome) (t' : Tree H)
     (h : setHashes ops cfg pick first t hashes leaves = (o, t')) (hne : o ≠ .ok)
     (hidx : o = .indexError → cfg.catchIndex = true) : t' = t := by
-  unfold setHashes at h
-  cases hm : mergeLeaves first hashes leaves with
-  | none => rw [hm] at h; injection h with h1 h2; exact h2.symm
-  | some new =>
-    rw [hm] at h
-    have hreach := tryBody_reach (ops.withCfg cfg) pick t new
-    cases hres : tryBody (ops.withCfg cfg) pick t new with
-    | ok st => rw [hres] at h; injection h with h1 h2; exact absurd h1.symm hne
-    | error e =>
-      obtain ⟨o', st⟩ := e
-      rw [hres] at h hreach
-      have hcls := tryBody_no_internal (ops.withCfg cfg) pick t new hres
-      have hinv : RollInv t st := hreach.rollInv hstrict (rollInv_init t)
-      simp only at h
-      by_cases hc : o' = .badHash ∨ o' = .notEnough ∨ (o' = .indexError ∧ cfg.catchIndex = true)
-      · rw [if_pos hc] at h
-        injection h with h1 h2
-        rw [← h2]; exact rollback_spec hinv
-      · rw [if_neg hc] at h
-        injection h with h1 h2
-        subst h1
-        exfalso; apply hc
-        cases hcls with
-        | inl e => exact Or.inl e
-        | inr e =>
-          cases e with
-          | inl e => exact Or.inr (Or.inl e)
-          | inr e => exact Or.inr (Or.inr ⟨e, hidx e⟩)
+  rcases setHashes_fail h hne with ⟨_, h2⟩ | ⟨new, st, _, hres, _, ht'⟩
+  · exact h2
+  · have hreach := tryBody_reach (ops.withCfg cfg) pick t new
+    rw [hres] at hreach
+    have hinv : RollInv t st := hreach.rollInv hstrict (rollInv_init t)
+    have : ¬ (o = .indexError ∧ cfg.catchIndex = false) := by
+      intro ⟨e1, e2⟩; rw [hidx e1] at e2; cases e2
+    rw [if_neg this] at ht'
+    rw [ht']; exact rollback_spec hinv
 
 /-- **sound**: a tree that agrees with the genuine tree `T` wherever populated and holds a root still agrees
     with `T` after a *successful* `set_hashes` with arbitrary (adversarial) hashes and leaves, for every pop
@@ -55,22 +39,10 @@ theorem sound (ops : HashOps H) (cfg : Cfg) (hstrict : StrictPresence ops cfg) (
     (hroot : get t 0 ≠ none)
     (pick : List Nat → Nat) (first : Nat) (hashes leaves : List (Nat × H)) (t' : Tree H)
     (h : setHashes ops cfg pick first t hashes leaves = (.ok, t')) : Agree t' T := by
-  unfold setHashes at h
-  cases hm : mergeLeaves first hashes leaves with
-  | none => rw [hm] at h; injection h with h1 h2; cases h1
-  | some new =>
-    rw [hm] at h
-    cases hres : tryBody (ops.withCfg cfg) pick t new with
-    | ok st =>
-      rw [hres] at h; injection h with h1 h2; subst h2
-      exact tryBody_sound (ops := ops.withCfg cfg) hstrict hinj ⟨hT.odd, hT.full, hT.node⟩ hlen hagree hroot
-        pick new hres
-    | error e =>
-      obtain ⟨o', st⟩ := e
-      rw [hres] at h
-      have hcls := tryBody_no_internal (ops.withCfg cfg) pick t new hres
-      simp only at h
-      split at h <;> (injection h with h1 h2; subst h1; simp at hcls)
+  obtain ⟨new, st, _, hres, ht'⟩ := setHashes_ok h
+  rw [← ht']
+  exact tryBody_sound (ops := ops.withCfg cfg) hstrict hinj ⟨hT.odd, hT.full, hT.node⟩ hlen hagree hroot
+    pick new hres
 
 /-- **an accepted leaf is genuine**: under the hypotheses of `sound`, every leaf value (and every other hash)
     passed to a successful `set_hashes` equals the corresponding entry of `T`. -/
@@ -81,22 +53,197 @@ theorem accepted_leaf_genuine (ops : HashOps H) (cfg : Cfg) (hstrict : StrictPre
     (h : setHashes ops cfg pick first t hashes leaves = (.ok, t')) :
     (∀ k v, (k, v) ∈ leaves → get T (first + k) = some v) ∧ (∀ i v, (i, v) ∈ hashes → get T i = some v) := by
   have hs := sound ops cfg hstrict hinj T t hT hlen hagree hroot pick first hashes leaves t' h
-  unfold setHashes at h
-  cases hm : mergeLeaves first hashes leaves with
-  | none => rw [hm] at h; injection h with h1 h2; cases h1
-  | some new =>
-    rw [hm] at h
-    obtain ⟨m1, m2⟩ := mergeLeaves_mem first hashes leaves hm
-    cases hres : tryBody (ops.withCfg cfg) pick t new with
-    | ok st =>
-      rw [hres] at h; injection h with h1 h2; subst h2
-      have hst := tryBody_stored (ops := ops.withCfg cfg) hstrict pick t new hres
-      exact ⟨fun k v hk => hs _ _ (hst _ _ (m2 k v hk)), fun i v hi => hs _ _ (hst _ _ (m1 _ hi))⟩
-    | error e =>
-      obtain ⟨o', st⟩ := e
-      rw [hres] at h
-      have hcls := tryBody_no_internal (ops.withCfg cfg) pick t new hres
-      simp only at h
-      split at h <;> (injection h with h1 h2; subst h1; simp at hcls)
+  obtain ⟨new, st, hm, hres, ht'⟩ := setHashes_ok h
+  obtain ⟨m1, m2⟩ := mergeLeaves_mem first hashes leaves hm
+  have hst := tryBody_stored (ops := ops.withCfg cfg) hstrict pick t new hres
+  rw [ht'] at hst
+  exact ⟨fun k v hk => hs _ _ (hst _ _ (m2 k v hk)), fun i v hi => hs _ _ (hst _ _ (m1 _ hi))⟩
+
+/-- **complete**: on a tree that agrees with `T`, is closed (see `Closed`; every tree built by successful
+    `set_hashes` calls is) and is at least as long as node `L = first + k` requires, supplying `T`'s values
+    for (at least) every hash `needed_hashes` asks for on the chain of `L` — and nothing off that chain — plus
+    `T`'s value for leaf `k` is accepted, for every pop order `pick`. -/
+theorem complete (ops : HashOps H) (cfg : Cfg) (hstrict : StrictPresence ops cfg)
+    (T t : Tree H) (hT : Genuine ops T) (hlen : t.length = T.length) (hagree : Agree t T)
+    (hclosed : Closed t) (pick : List Nat → Nat) (first k : Nat) (hL : first + k < t.length)
+    (v : H) (hv : get T (first + k) = some v) (hashes : List (Nat × H))
+    (hgen : ∀ i w, (i, w) ∈ hashes → get T i = some w)
+    (hkeys : ∀ i w, (i, w) ∈ hashes → i ∈ neededFor (first + k))
+    (hcov : ∀ i, i ∈ neededHashes t (first + k) → ∃ w, (i, w) ∈ hashes) :
+    ∃ t', setHashes ops cfg pick first t hashes [(k, v)] = (.ok, t') := by
+  -- new_hashes: `hashes`, with the leaf appended unless it is already there with the same value
+  have hmerge : ∃ new, mergeLeaves first hashes [(k, v)] = some new ∧
+      (∀ i w, (i, w) ∈ new → (i, w) ∈ hashes ∨ (i = first + k ∧ w = v)) ∧
+      (∀ x ∈ hashes, x ∈ new) ∧ (first + k, v) ∈ new := by
+    unfold mergeLeaves
+    cases hl : hashes.lookup (first + k) with
+    | some w =>
+      have hm := mem_of_lookup _ _ _ hl
+      have := hgen _ _ hm
+      rw [hv] at this; injection this with this; subst this
+      refine ⟨hashes, by simp [mergeLeaves], fun i w h => Or.inl h, fun x h => h, hm⟩
+    | none =>
+      refine ⟨hashes ++ [(first + k, v)], by simp [mergeLeaves], ?_, fun x h => List.mem_append_left _ h,
+        List.mem_append_right _ (List.mem_singleton.mpr rfl)⟩
+      intro i w h
+      rcases List.mem_append.mp h with h | h
+      · exact Or.inl h
+      · have := List.mem_singleton.mp h; injection this with e1 e2; exact Or.inr ⟨e1, e2⟩
+  obtain ⟨new, hm, hsub, hsup, hleaf⟩ := hmerge
+  obtain ⟨st1, h1⟩ := tryBody_complete (ops := ops.withCfg cfg) hstrict
+    (T := T) ⟨hT.odd, hT.full, hT.node⟩ hlen hagree hclosed (first + k) hL pick new
+    (by
+      intro i w h
+      rcases hsub i w h with h | ⟨e1, e2⟩
+      · exact hgen i w h
+      · rw [e1, e2]; exact hv)
+    (by
+      intro i w h
+      rcases hsub i w h with h | ⟨e1, _⟩
+      · exact Or.inl (hkeys i w h)
+      · exact Or.inr e1)
+    (by
+      intro i hi hg
+      have : i ∈ neededHashes t (first + k) := by
+        unfold neededHashes; simp [hi, hg]
+      obtain ⟨w, hw⟩ := hcov i this
+      exact ⟨w, hsup _ hw⟩)
+    ⟨v, hleaf⟩
+  exact ⟨st1.t, setHashes_ok_of hm h1⟩
+
+/-- the `Closed` hypothesis of `complete` is an invariant: a fresh `IncompleteHashTree` is closed and every
+    successful `set_hashes` keeps the tree closed (a rejected one restores it, by `rollback`). -/
+theorem closed_preserved (ops : HashOps H) (cfg : Cfg) (hstrict : StrictPresence ops cfg)
+    (pick : List Nat → Nat) (first : Nat) (t : Tree H) (hashes leaves : List (Nat × H)) (t' : Tree H)
+    (hclosed : Closed t) (h : setHashes ops cfg pick first t hashes leaves = (.ok, t')) : Closed t' := by
+  obtain ⟨new, st, _, hres, ht'⟩ := setHashes_ok h
+  rw [← ht']
+  exact tryBody_closed (ops := ops.withCfg cfg) hstrict pick t new hclosed hres
+
+omit [DecidableEq H] in
+theorem new_tree_closed (n : Nat) : Closed (newTree H n) := newTree_closed n
+
+omit [DecidableEq H] in
+/-- **HashTree construction**: `HashTree(L)` is a genuine Merkle tree (odd length, every node present, every
+    internal node the pair hash of its children) whose bottom row, starting at `first_leaf_num`, is `L`
+    followed by `empty_leaf_hash(i)` for the padding positions `len(L) ≤ i < roundup_pow2(len(L))` — so the
+    `T` of `sound`/`complete` can be any tree the uploader built. -/
+theorem hashtree_is_genuine (ops : HashOps H) (L : List H) :
+    Genuine ops (build ops L) ∧
+    (∀ k, k < L.length → Base.Merkle.get (build ops L) (firstLeafNum L.length + k) = L[k]?) ∧
+    (∀ k, L.length ≤ k → k < roundupPow2 L.length →
+      Base.Merkle.get (build ops L) (firstLeafNum L.length + k) = some (ops.emptyLeaf k)) :=
+  ⟨build_genuine ops L, build_leaf ops L, build_padding ops L⟩
+
+/-- **order_irrelevant**: whether `set_hashes` accepts does not depend on the order in which `set.pop()`
+    hands out the red-dotted nodes, and when it accepts the resulting list is the same.  (When it rejects the
+    list is the input list for every order, by `rollback`; only *which* of BadHashError /
+    NotEnoughHashesError is raised may depend on the order.) -/
+theorem order_irrelevant (ops : HashOps H) (cfg : Cfg) (hstrict : StrictPresence ops cfg)
+    (pick1 pick2 : List Nat → Nat) (first : Nat) (t : Tree H) (hashes leaves : List (Nat × H)) :
+    ((setHashes ops cfg pick1 first t hashes leaves).1 = .ok ↔
+      (setHashes ops cfg pick2 first t hashes leaves).1 = .ok) ∧
+    ((setHashes ops cfg pick1 first t hashes leaves).1 = .ok →
+      setHashes ops cfg pick2 first t hashes leaves = setHashes ops cfg pick1 first t hashes leaves) := by
+  have key : ∀ p1 p2 : List Nat → Nat, (setHashes ops cfg p1 first t hashes leaves).1 = .ok →
+      setHashes ops cfg p2 first t hashes leaves = setHashes ops cfg p1 first t hashes leaves := by
+    intro p1 p2 h
+    have h' : setHashes ops cfg p1 first t hashes leaves
+        = (.ok, (setHashes ops cfg p1 first t hashes leaves).2) := by
+      rw [← h]
+    obtain ⟨new, st, hm, hres, ht'⟩ := setHashes_ok h'
+    obtain ⟨st2, h2, he⟩ := tryBody_order (ops := ops.withCfg cfg) hstrict p1 p2 t new hres
+    rw [setHashes_ok_of hm h2, he, ht', ← h']
+  refine ⟨⟨fun h => ?_, fun h => ?_⟩, key pick1 pick2⟩
+  · rw [key pick1 pick2 h]; exact h
+  · rw [key pick2 pick1 h]; exact h
+
+/-! ### the hypotheses are satisfiable, and a concrete instance -/
+
+/-- the symbolic pair hash is collision-free by construction -/
+example : PairInjective symOps := by
+  intro a b c d h
+  have h' : Sym.pair a b = Sym.pair c d := h
+  injection h' with h1 h2
+  exact ⟨h1, h2⟩
+
+/-- the repaired presence test is strict for every hash type, in particular with Python truthiness and `b""` -/
+example : StrictPresence symOps Cfg.repaired := fun _ => rfl
+
+/-- the code as it is has a strict presence test over non-empty byte strings (real SHA-256d outputs) -/
+example : StrictPresence neBytesOps Cfg.asIs := by
+  intro h
+  show (h.val != []) = true
+  have := h.property
+  simp [this]
+
+/-- a genuine two-leaf tree, a partial tree holding its root, and an accepted / a rejected call -/
+example :
+    let T : Tree Sym := build symOps [Sym.atom 0, Sym.atom 1]
+    let t : Tree Sym := [some (Sym.pair (Sym.atom 0) (Sym.atom 1)), none, none]
+    Genuine symOps T ∧ t.length = T.length ∧ Agree t T ∧ Base.Merkle.get t 0 ≠ none ∧ Closed t ∧
+    setHashes symOps Cfg.repaired (fun _ => 0) 1 t [(2, Sym.atom 1)] [(0, Sym.atom 0)] = (.ok, T) ∧
+    setHashes symOps Cfg.repaired (fun _ => 0) 1 t [(2, Sym.atom 1)] [(0, Sym.atom 7)] = (.badHash, t) := by
+  intro T t
+  have hT : T = [some (Sym.pair (Sym.atom 0) (Sym.atom 1)), some (Sym.atom 0), some (Sym.atom 1)] := by decide
+  refine ⟨?_, by decide, ?_, by decide, ?_, by decide, by decide⟩
+  · rw [hT]
+    refine ⟨by decide, by decide, ?_⟩
+    intro i a b h1 h2
+    match i with
+    | 0 =>
+      simp [Base.Merkle.get] at h1 h2
+      subst h1; subst h2; rfl
+    | i + 1 => simp [Base.Merkle.get] at h2
+  · intro j h hj
+    match j with
+    | 0 => rw [hT]; exact hj
+    | 1 => simp [Base.Merkle.get, t] at hj
+    | 2 => simp [Base.Merkle.get, t] at hj
+    | j + 3 => simp [Base.Merkle.get, t] at hj
+  · intro i hi h1 h2
+    match i with
+    | 0 => exact absurd rfl hi
+    | 1 => simp [Base.Merkle.get, t] at h1
+    | 2 => simp [Base.Merkle.get, t] at h1
+    | i + 3 => simp [Base.Merkle.get, t] at h1
+
+/-- `HashTree([a0, a1, a2])`: the bottom row is padded with `empty_leaf_hash(3)`, rows are flattened root first;
+    `needed_hashes` of leaf 2 in a tree that only holds the root -/
+example :
+    build symOps [Sym.atom 0, Sym.atom 1, Sym.atom 2] =
+      [some (Sym.pair (Sym.pair (Sym.atom 0) (Sym.atom 1)) (Sym.pair (Sym.atom 2) (Sym.emptyLeaf 3))),
+       some (Sym.pair (Sym.atom 0) (Sym.atom 1)), some (Sym.pair (Sym.atom 2) (Sym.emptyLeaf 3)),
+       some (Sym.atom 0), some (Sym.atom 1), some (Sym.atom 2), some (Sym.emptyLeaf 3)] ∧
+    firstLeafNum 3 = 3 ∧
+    neededHashes ([some (Sym.atom 9), none, none, none, none, none, none] : Tree Sym) 5 = [6, 1] := by decide
+
+/-! ### the Python-truthiness corner: what goes wrong in the code as it is (`Cfg.asIs`) with `b""` -/
+
+/-- with `if self[i]:` a one-leaf tree whose trusted root is `b""` accepts a forged leaf … -/
+theorem sound_counterexample_falsy_root :
+    setHashes symOps Cfg.asIs (fun _ => 0) 0 [some Sym.empty] [] [(0, Sym.atom 1000)]
+      = (.ok, [some (Sym.atom 1000)]) := by decide
+
+/-- … and a validated genuine leaf equal to `b""` is erased by a *rejected* call (the list changes) -/
+theorem rollback_counterexample_falsy_leaf :
+    setHashes symOps Cfg.asIs (fun _ => 0) 1
+      [some (Sym.pair Sym.empty (Sym.atom 1)), some Sym.empty, some (Sym.atom 1)] [] [(0, Sym.atom 1000)]
+      = (.badHash, [some (Sym.pair Sym.empty (Sym.atom 1)), none, some (Sym.atom 1)]) := by decide
+
+/-- an out-of-range index escapes `except (BadHashError, NotEnoughHashesError)`: the unvalidated hash stays -/
+theorem rollback_counterexample_index_error :
+    setHashes symOps Cfg.asIs (fun _ => 0) 1 [some (Sym.atom 9), none, none] [(1, Sym.atom 1000), (100, Sym.atom 5)] []
+      = (.indexError, [some (Sym.atom 9), some (Sym.atom 1000), none]) := by decide
+
+/-- the same three calls on the repaired code -/
+example :
+    setHashes symOps Cfg.repaired (fun _ => 0) 0 [some Sym.empty] [] [(0, Sym.atom 1000)]
+      = (.badHash, [some Sym.empty]) ∧
+    setHashes symOps Cfg.repaired (fun _ => 0) 1
+      [some (Sym.pair Sym.empty (Sym.atom 1)), some Sym.empty, some (Sym.atom 1)] [] [(0, Sym.atom 1000)]
+      = (.badHash, [some (Sym.pair Sym.empty (Sym.atom 1)), some Sym.empty, some (Sym.atom 1)]) ∧
+    setHashes symOps Cfg.repaired (fun _ => 0) 1 [some (Sym.atom 9), none, none] [(1, Sym.atom 1000), (100, Sym.atom 5)] []
+      = (.indexError, [some (Sym.atom 9), none, none]) := by decide
 
 end Tahoe.C35
